@@ -10,7 +10,8 @@ TRUSTED = [
 
 def _params(tier):
     L = 3 if tier == "quick" else 6
-    return {"L": L, "HEAP_LENS": ", ".join(str(i) for i in range(L + 1)), "UNWIND": L + 4}
+    # loops over element identities run up to 2L (clone doubles them) + 1
+    return {"L": L, "HEAP_LENS": ", ".join(str(i) for i in range(L + 1)), "UNWIND": max(L + 4, 2 * L + 3)}
 
 
 def overlay(tier):
